@@ -110,6 +110,13 @@ def _engaged_by_assignment(fn, g, node, obj):
             continue
         tgt = None
         rhs = None
+        if n.get("k") == "CXXMemberCallExpr":
+            cal = strip(n["c"][0])
+            if cal and cal.get("c") and flow.lvalue_root(cal["c"][0]) == root:
+                if cal.get("n") == "emplace":
+                    return True     # emplace() engages the optional
+                if cal.get("n") == "reset":
+                    return False
         if n.get("k") == "CXXOperatorCallExpr" and n.get("op") == "=" and len(n["c"]) == 3:
             tgt, rhs = n["c"][1], n["c"][2]
         elif n.get("k") == "BinaryOperator" and n.get("op") == "=":
